@@ -9,11 +9,30 @@ RULE = ("one case = a history of 2-5 runs on one real recorder: operations of tw
         "the same class several times with different extractors: dict / raises / junk int / junk pairs / none) terminating by "
         "return, ordinary exception or interrupt at a random step incl. inside intercepted bodies and after outputs were "
         "captured, with discards and replays in between; non-trivial = a run that is saved; distinct = distinct history")
-ASSUMPTIONS = ["duration and timestamp come from the OS clock: only sanity (0 <= duration < 1h, timestamp is a str) is checked "
-               "by the harness, they are excluded from the model comparison",
+ASSUMPTIONS = ["duration and timestamp come from the OS clock: only sanity (0 <= duration < 1h; the timestamp is a naive UTC time "
+               "within two minutes of the save, also when the process's local time zone is not UTC) is checked by the harness, "
+               "they are excluded from the model comparison",
                "output aliases / user keys do not contain '_tape_recorder_operation' (hypothesis sites_ok clean)"]
 TRUSTED = ["harness-side undecorated twin interpreter (termination mode of the run) used by the direct predicate"]
 THEOREMS = ["C18_metadata_truth", "C18_flags", "C18_clean_sufficient"]
+# the same histories again in an interpreter whose local time is far from UTC: the recording timestamp is a UTC time
+ALT_ENVS = [{"TZ": "Asia/Kolkata"}]
+ERROR_SHAPED = pv.dct([["error_type", pv.s("ValueError")], ["error_repr", pv.s("ValueError('boom')")]])
+
+
+def set_final_ret(c, lit):
+    """make every normal end of the operation return the given literal"""
+    while True:
+        if c["k"] == "try":
+            set_final_ret(c["c"], lit)
+            c = c["h"]
+            continue
+        if "next" in c:
+            c = c["next"]
+            continue
+        if c["k"] == "ret":
+            c["e"] = {"lit": lit}
+        return
 
 W = dict(rd.DEFAULT_W, fault=0.1, discard=0.25, force=0.3, interrupt=0.3, raise_=0.3, enable=0.05, unser=0.0,
          prep_discards=0.02, handler=0.15, playdata=0.1)
@@ -46,6 +65,9 @@ def generate(rng, tier):
             op = rd.rand_opdef(rng, W, budget=rng.choice([3, 6, 10]), cls=rng.choice(classes))
             op["extractor"] = rand_extractor(rng)
             op["classlevel"] = (op["cls"] == "OpB")
+            if rng.random() < 0.12:
+                # a run that RETURNS a value shaped like the stored form of an exception did not end in an exception
+                set_final_ret(op["body"], ERROR_SHAPED)
             runs.append(dict(kind="record", enabled=True, prm=dict(rate=[1, 1], ignore=False, skipped=False, copy=False),
                              op=op, save_fails=False, in_handler=rng.random() < 0.3))
         cases.append(dict(draws=[], runs=runs, cassette="memory", lookup=True))
@@ -88,8 +110,16 @@ def direct(case, obs):
             fails.append(("wrong-user-metadata", "run %d: extractor %s, user metadata saved: %s" %
                           (i, ex["kind"], sorted(user))))
         ck = saves[0].get("clock", {})
-        if not ck.get("duration_ok") or not ck.get("recorded_at_ok"):
+        if not ck.get("duration_ok") or not ck.get("recorded_at_ok") or not ck.get("recorded_at_utc_ok"):
             fails.append(("bad-clock-metadata", "run %d: %s" % (i, ck)))
+        for k, alt in enumerate(obs.get("alt", [])):
+            try:
+                ack = [c for c in alt["runs"][i]["cass"] if c["c"] == "save"][0]["clock"]
+            except (KeyError, IndexError, TypeError):
+                continue
+            if not ack.get("duration_ok") or not ack.get("recorded_at_utc_ok"):
+                fails.append(("bad-clock-metadata", "run %d under %s: the recording timestamp is not the UTC time of the "
+                              "save: %s" % (i, ALT_ENVS[k], ack)))
         if o["o"] != "int":
             want_lookup.setdefault(op["cls"], []).append(my_ord)
     lk = obs.get("lookup")
